@@ -1037,6 +1037,24 @@ func (e *Env) call(ex ECall) (Value, error) {
 				return nil, fmt.Errorf("callerfresh of non-object")
 			}
 			return boolV("(< (rootid " + r + ") 0)"), nil
+		case "live":
+			// live(x): every reference inside the value x points to something that exists at this
+			// point (so anything allocated later is distinct from it). True of every value a
+			// program can hold; stated in invariants for references kept inside containers, which
+			// the generator does not assume wholesale.
+			v, err := e.eval(ex.Args[0])
+			if err != nil {
+				return nil, err
+			}
+			ls := flatten(v)
+			sh := leafShapeAny(valueType(v))
+			var fs []Term
+			for i, l := range sh {
+				if i < len(ls) && l.sort == SRef {
+					fs = append(fs, "(>= (rootid "+ls[i]+") "+e.st.allocLow+")")
+				}
+			}
+			return boolV(And(fs...)), nil
 		case "preexisting":
 			// preexisting(x): the object was not allocated by this activation
 			v, err := e.eval(ex.Args[0])
